@@ -126,6 +126,8 @@ type wrec struct {
 }
 
 type world struct {
+	liveAtEnd *sim.BConn
+	liveTaken bool
 	closeStarted bool
 	p        params
 	b        *sim.Broker
@@ -331,6 +333,7 @@ func (w *world) main() {
 	w.postWriteErr = up.WriteDataPoints(pctx, &ida, &message.DataPoint{ElapsedTime: 999, Payload: []byte("z")})
 	pcancel()
 	vsched.Quiesce()
+	w.liveAtEnd, w.liveTaken = w.b.Live(), true // the broker's view before the harness closes the connection
 	w.phase = "connclose"
 	conn.Close(ctx)
 	w.b.Stop()
@@ -370,6 +373,9 @@ func (w *world) oracle(v *vlib.Verdict, res *vsched.Result) {
 	}
 	u := w.b.Ups[0]
 	live := w.b.Live()
+	if w.liveTaken && w.liveAtEnd != nil {
+		live = w.liveAtEnd // (not the broker's view after the harness closed the connection)
+	}
 	reportedClosed := false
 	for _, e := range w.closed {
 		if e != nil {
